@@ -33,7 +33,11 @@ RULE = ('Every NaN mask of the n_cond*(n_cond-1)/2 entries leaving >= 3 entries 
         'two common masks (every ordered pair of 22 / 11 masks); rescale on every covering x 3 methods x 6 '
         'value kinds (positive / small-negative crossnobis-like / mixed-sign / all-negative templates with '
         'proportional parts, independent positive and sign-consistent signed parts); every second generic fill '
-        'of pool / noise ceiling / fit / mean is signed; after EVERY library call every array or RDMs '
+        'of pool / noise ceiling / fit / mean is signed; selection family: 4 stacks of 3 RDMs x 7 sources of a '
+        'per-entry weights rdm descriptor (2-D ndarray from the constructor / assigned / rescale x 3 methods, list '
+        'of rows, 1-D control) x 159 selections (subset / subsample / [] by every index vector of length 1-3 '
+        'incl. repeats, by group, iteration, two selections in a row) then mean(weights=name), descriptor rows '
+        'and mean judged on the selected rows; after EVERY library call every array or RDMs '
         'argument must be bit-identical (modifies-argument).  One evaluation = one library '
         'call judged against the reference on the entry-deleted vectors (or judged to raise).  Non-trivial = '
         'the measure is defined on the deleted vectors; distinct = distinct case descriptor.')
@@ -1292,8 +1296,9 @@ def _case_meansel(case, ctx):
     source row, (c) the mean equals the per-entry weighted NaN-aware mean of the selected rows with the
     selected weight rows"""
     masks, source, op = case['masks'], case['source'], case['op']
-    cls = 'per-rdm-1d-descriptor' if source == '1d' else '2-D-descriptor(%s)' % source.split('-')[0]
-    opc = op.replace('-ndarray', '')
+    # signature classes: where the 2-D descriptor came from and the exact selection stay in the case
+    cls = 'per-rdm-1d-descriptor' if source == '1d' else '2-D-descriptor'
+    opc = 'two-selections' if '+' in op else op.replace('-ndarray', '')
     tag = 'RDMs.mean|weights=descriptor-name,%s,after-%s' % (cls, opc)
     with ctx.guard(tag, case):
         stack, name, D0, W0 = _sel_stack(ctx, masks, source)
